@@ -178,6 +178,10 @@ def floatToJson(x):
         return "inf"
     if math.isinf(x):
         return "-inf"
+    if not isinstance(x, (int, float)):
+        # numpy scalars that are not Python numbers (int64, float16, ... from quantities that return them)
+        # are accepted by fill but cannot be emitted by the json module
+        return float(x)
     return x
 
 
